@@ -24,6 +24,7 @@
    out of fuel is never a normal-looking value; that enough fuel exists is not proved). *)
 From Coq Require Import ZArith List Bool PArith.
 From Tickit Require Import LifeDefs LifeLemmas LifeInv LifeClose LifeQueue LifeDestroy LifeFate LifeSpec LifeProofs LifeAgree LifeWitness LifePenDefs LifePen.
+From Tickit Require BindDefs LifeBindDefs LifeBindSim LifeBindSafe.
 Import ListNotations.
 Local Open Scope Z_scope.
 
@@ -136,6 +137,58 @@ Print Assumptions C08_penstack_counts.
 Theorem C08_penstack_no_fault_all_released : forall lines l, exists obs, rb_run lines l = RVOk obs 0 0.
 Proof. exact penstack_no_fault_all_released. Qed.
 Print Assumptions C08_penstack_no_fault_all_released.
+
+(* the binding list of bindings.c at heap level (LifeBindDefs.v: cells with addresses and next
+   pointers, malloc / free, every access to an address that is not allocated a Fault; tombstones, the
+   saved iteration guard, the deferred sweep, the detach-then-notify loop of unbind_and_destroy) runs in
+   lockstep with the logical model BindDefs.v of property C16, for EVERY handler environment: same
+   result kind with the same fuel, same value, same trace, and the cells allocated are exactly the
+   nodes of the list *)
+Theorem C08_bindings_twin_simulates : forall env fuel ops,
+  match BindDefs.run BindDefs.fixed env fuel ops, LifeBindDefs.hrun env fuel ops with
+  | BindDefs.Ok (w, v), BindDefs.Ok (hw, v') =>
+      v = v' /\ BindDefs.wt w = LifeBindDefs.ht hw /\ BindDefs.wn w = LifeBindDefs.hn hw /\ exists lp, LifeBindSim.Rep w hw lp
+  | BindDefs.Fault, BindDefs.Fault => True
+  | BindDefs.OutOfFuel, BindDefs.OutOfFuel => True
+  | _, _ => False
+  end.
+Proof. exact LifeBindSim.twin_simulates. Qed.
+Print Assumptions C08_bindings_twin_simulates.
+
+(* no handler environment (handlers bind, unbind, emit, themselves or others, at any depth; destruction
+   at top level only) can make it read or write a cell that is not allocated, follow a dangling loop
+   variable, free twice or call NULL *)
+Theorem C08_bindings_no_fault : forall env, LifeBindSafe.henv_ok env ->
+  forall ops, Forall LifeBindSafe.act_top_ok ops -> forall fuel, LifeBindDefs.hrun env fuel ops <> BindDefs.Fault.
+Proof. exact LifeBindSafe.twin_no_fault. Qed.
+Print Assumptions C08_bindings_no_fault.
+
+(* nor leak: whatever the handlers did, the cells allocated are exactly the nodes of the list ... *)
+Theorem C08_bindings_exact : forall env fuel ops hw v, LifeBindDefs.hrun env fuel ops = BindDefs.Ok (hw, v) ->
+  exists w lp, BindDefs.run BindDefs.fixed env fuel ops = BindDefs.Ok (w, v) /\ LifeBindSim.Rep w hw lp /\
+               (forall a, LifeBindDefs.BM.find a (LifeBindDefs.cells (LifeBindDefs.hs hw)) <> None <-> In a (LifeBindSim.addrs lp)).
+Proof. exact LifeBindSafe.twin_exact. Qed.
+Print Assumptions C08_bindings_exact.
+
+(* ... and a history that ends with tickit_bindings_unbind_and_destroy leaves nothing allocated *)
+Theorem C08_bindings_all_released : forall env fuel ops hw v,
+  LifeBindDefs.hrun env fuel (ops ++ [BindDefs.ADestroy]) = BindDefs.Ok (hw, v) ->
+  LifeBindDefs.bheap_empty (LifeBindDefs.hs hw) = true.
+Proof. exact LifeBindSafe.twin_all_released. Qed.
+Print Assumptions C08_bindings_all_released.
+
+(* the pointer walks inside one call (sweep, bind, unbind, destroy) never exhaust their own fuel *)
+Theorem C08_bindings_walk_fuel : forall env fuel ops,
+  LifeBindDefs.hrun env fuel ops = BindDefs.OutOfFuel <-> BindDefs.run BindDefs.fixed env fuel ops = BindDefs.OutOfFuel.
+Proof. exact LifeBindSafe.twin_fuel. Qed.
+Print Assumptions C08_bindings_walk_fuel.
+
+Theorem C08_bindings_nonvacuous : exists hw v,
+  LifeBindDefs.hrun LifeBindSafe.env_demo 40 LifeBindSafe.demo_ops = BindDefs.Ok (hw, v) /\
+  LifeBindDefs.bheap_empty (LifeBindDefs.hs hw) = true /\
+  (length (filter (fun e => match e with BindDefs.TCallB _ _ => true | _ => false end) (LifeBindDefs.ht hw)) = 9)%nat.
+Proof. exact LifeBindSafe.twin_nonvacuous. Qed.
+Print Assumptions C08_bindings_nonvacuous.
 
 (* tickit_mockterm_get_display_text is kept as pinned (t/20mockterm.c relies on the NUL at buffer[len]):
    outside the trigger class -- a cell's text filling the remaining length exactly -- it stays inside *)
